@@ -286,6 +286,10 @@ class Client(BaseComponent):
 
     @handler('write')
     def write(self, data):
+        if not self._connected and self._sock.fileno() < 0:
+            # the connection has been closed: nothing could ever be written,
+            # and the dead socket must not be handed to the poller
+            return
         if not self._poller.isWriting(self._sock):
             self._poller.addWriter(self, self._sock)
         self._buffer.append(data)
